@@ -2,6 +2,7 @@
 package c13
 
 import (
+	"bufio"
 	"bytes"
 	"fmt"
 	"math"
@@ -461,6 +462,77 @@ func writerCalls(c *explore.Ctx) {
 	}
 }
 
+// plainWriter has nothing but Write (no WriteByte, no WriteString) and keeps a copy of what it is given.
+type plainWriter struct{ b []byte }
+
+func (w *plainWriter) Write(p []byte) (int, error) { w.b = append(w.b, p...); return len(p), nil }
+
+// byteWriter implements io.ByteWriter and io.StringWriter without being one of the concrete types the writers know.
+type byteWriter struct{ b []byte }
+
+func (w *byteWriter) Write(p []byte) (int, error)       { w.b = append(w.b, p...); return len(p), nil }
+func (w *byteWriter) WriteByte(c byte) error            { w.b = append(w.b, c); return nil }
+func (w *byteWriter) WriteString(s string) (int, error) { w.b = append(w.b, s...); return len(s), nil }
+
+// writerKinds: the Writers look at the concrete type of the io.Writer they are given (byte-wise writes,
+// string writes); the bytes must not depend on it.
+func writerKinds(c *explore.Ctx) {
+	p := protos[c.Choose(3)]
+	kind := c.Choose(3)
+	first := calls[(c.Choose(12)*29)%len(calls)]
+	cl := calls[c.Choose(len(calls))]
+	var pw plainWriter
+	var bw byteWriter
+	var under bytes.Buffer
+	bufw := bufio.NewWriterSize(&under, 16)
+	var w thrift.Writer
+	kindName := []string{"an io.Writer with nothing but Write", "an io.ByteWriter / io.StringWriter of another type", "a bufio.Writer of 16 bytes"}[kind]
+	switch kind {
+	case 0:
+		w = impl(p).NewWriter(&pw)
+	case 1:
+		w = impl(p).NewWriter(&bw)
+	case 2:
+		w = impl(p).NewWriter(bufw)
+	}
+	var want []byte
+	for _, x := range []call{first, cl} {
+		m := x.model(p)
+		if m == nil {
+			c.Outcome("unspecified-call")
+			return
+		}
+		want = append(want, m...)
+		var err error
+		if pv, ps := explore.Catch(func() { err = x.do(w) }); pv != nil {
+			c.Fail("Writer:panic:"+ps, "%s on %s panicked: %v (%s)", x.name, kindName, pv, p)
+			return
+		}
+		if err != nil {
+			c.Fail("Writer:error:"+p.String()+":"+callClass(x.name), "%s on %s failed: %v (%s)", x.name, kindName, err, p)
+			return
+		}
+	}
+	var got []byte
+	switch kind {
+	case 0:
+		got = pw.b
+	case 1:
+		got = bw.b
+	case 2:
+		bufw.Flush()
+		got = under.Bytes()
+	}
+	if !bytes.Equal(got, want) {
+		c.Fail("Writer:bytes-differ:"+p.String()+":"+callClass(cl.name)+":writer-kind", "%s; %s on %s wrote % x, specification % x (%s; %s)", first.name, cl.name, kindName, trunc(got), trunc(want), firstDiff(got, want), p)
+	}
+	c.NontrivialStr(p.String(), kindName, first.name, cl.name)
+	c.Outcome(fmt.Sprintf("%s kind=%d", p, kind))
+	if c.WantSample() || c.Failed() {
+		c.Case(map[string]any{"protocol": p.String(), "writer": kindName, "calls": first.name + ";" + cl.name, "bytes": fmt.Sprintf("%x", trunc(got))})
+	}
+}
+
 func mustWriteAlone(p spec.Protocol, cl call) []byte {
 	var buf bytes.Buffer
 	w := impl(p).NewWriter(&buf)
@@ -701,6 +773,7 @@ func Spec() *explore.Spec {
 			{Name: "golden", Body: golden, Doc: "worked examples and constants transcribed from the specifications pin the reference model"},
 			{Name: "embedded-bytes", ShardDepth: 2, Body: embeddedBytes, Doc: "struct types whose fields are promoted through up to 5 levels of embedding (3 shapes) x 13 value patterns x 3 protocols: Marshal bytes equal the specification's encoding of the flat field list"},
 			{Name: "marshal-bytes", ShardDepth: 2, Body: marshalBytes, Bound: func(string) int { return 1 }, Doc: "struct types (1-2 fields, C04 palette) x id layouts x values x 3 protocols: Marshal bytes equal the specification model's bytes (decoded content for multi-entry maps/sets)"},
+			{Name: "writer-kinds", ShardDepth: 2, Body: writerKinds, Doc: "every Writer call of the alphabet (after one of 12 earlier calls) x 3 protocols on three other kinds of io.Writer than bytes.Buffer (nothing but Write; an io.ByteWriter / io.StringWriter of an unknown type; a 16-byte bufio.Writer): the bytes that reach the writer equal the specification model's"},
 			{Name: "writer-calls", ShardDepth: 2, Body: writerCalls, Doc: "every sequence of up to 2 (3 thorough) Writer calls over an alphabet of ~330 calls with boundary arguments x 3 protocols, byte-for-byte against the model"},
 			{Name: "alt-encodings", ShardDepth: 2, Body: altEncodings, Bound: func(string) int { return 1 }, Doc: "every conformant alternative encoding (field order permutations; compact: long field headers, long list headers, non-minimal varints, bool element type 1, combined) is accepted by Unmarshal with the same value"},
 			{Name: "readers", ShardDepth: 2, Body: readers, Doc: "ReadMessage / ReadField / ReadList / ReadMap on specification-encoded headers incl. long forms"},
